@@ -724,7 +724,10 @@ func c16Chain(c *Ctx, rule, list string, L *c16List) {
 		idx[p.Name()] = i
 	}
 	// context literal fields come from the handler's parameters of the same role
-	roles := []struct{ field string; param int }{{L.req, 0}, {"deviceKeys", 1}, {"asKEKLabel", 2}, {"asKEK", 3}, {"nsKEKLabel", 4}, {"nsKEK", 5}}
+	roles := []struct {
+		field string
+		param int
+	}{{L.req, 0}, {"deviceKeys", 1}, {"asKEKLabel", 2}, {"asKEK", 3}, {"nsKEKLabel", 4}, {"nsKEK", 5}}
 	if len(h.Params) != 6 {
 		c.Run.Unknown(rule, key+"/params", fpos(c, h), "6 parameters (request, device keys, AS label, AS KEK, NS label, NS KEK)", fmt.Sprint(len(h.Params)))
 		return
@@ -983,19 +986,21 @@ func c16Echo(c *Ctx, lists map[string]*c16List) {
 			if writesNonce {
 				base := name + "/" + tname
 				src := flow.Param(0, "deviceKeys", "JoinNonce")
-				for i, r := range flow.Returns(t) {
+				i := 0
+				for _, r := range flow.Returns(t) {
 					if !mayReturnNil(e, r, 0) {
 						continue
 					}
+					i++
 					got := e.SelectAddr(t.Params[0], []string{"joinNonce"}, r)
-					checkTerm(c, rNonce, fmt.Sprintf("%s/value#%d", base, i+1), ipos(c, r), "ctx.joinNonce", got, flow.Conv("uint32", src), src)
+					checkTerm(c, rNonce, fmt.Sprintf("%s/value#%d", base, i), ipos(c, r), "ctx.joinNonce", got, flow.Conv("uint32", src), src)
 					pc := e.PathCond(r.Block(), nil)
 					over1 := flow.AtomOf(flow.Bin("<", flow.ConstInt(1<<24-1), src))
 					over2 := flow.AtomOf(flow.Bin("<=", flow.ConstInt(1<<24), src))
 					if flow.Implies(pc, flow.FNot(over1)) && pc.DependsOn(over1.Atom) || flow.Implies(pc, flow.FNot(over2)) && pc.DependsOn(over2.Atom) {
-						c.Run.OK(rNonce, fmt.Sprintf("%s/limit#%d", base, i+1), ipos(c, r), "success implies JoinNonce <= 2^24-1 (three bytes on the wire)", pc.Pretty(), true)
+						c.Run.OK(rNonce, fmt.Sprintf("%s/limit#%d", base, i), ipos(c, r), "success implies JoinNonce <= 2^24-1 (three bytes on the wire)", pc.Pretty(), true)
 					} else {
-						c.Run.Bad(rNonce, fmt.Sprintf("%s/limit#%d", base, i+1), ipos(c, r), "success implies JoinNonce <= 16777215 (three bytes on the wire)", "path condition of the successful return: "+pc.Pretty()+": a larger configured nonce is truncated in the join-accept while the keys are derived from the full value")
+						c.Run.Bad(rNonce, fmt.Sprintf("%s/limit#%d", base, i), ipos(c, r), "success implies JoinNonce <= 16777215 (three bytes on the wire)", "path condition of the successful return: "+pc.Pretty()+": a larger configured nonce is truncated in the join-accept while the keys are derived from the full value")
 					}
 				}
 			}
@@ -1042,11 +1047,13 @@ func c16Echo(c *Ctx, lists map[string]*c16List) {
 			if name == "rejoinTasks" {
 				ans = "rejoinAnsPaylaod"
 			}
-			for i, r := range flow.Returns(t) {
+			ai := 0
+			for _, r := range flow.Returns(t) {
 				if !flow.IsNilConst(r.Results[0]) {
 					continue
 				}
-				rk := fmt.Sprintf("%s/answer#%d", base, i+1)
+				ai++
+				rk := fmt.Sprintf("%s/answer#%d", base, ai)
 				phy := e.SelectAddr(t.Params[0], []string{ans, "PHYPayload"}, r)
 				okShape := false
 				var frame *flow.Term
